@@ -62,7 +62,8 @@ Qed.
 (* the document written by a macro-expanded gateway write (Put or import) *)
 Lemma apply_upd_DocInv cl cur st' body' u nc :
   st' <> Absent -> u_macro u = true ->
-  (exists v m, u_vv u = Some (v, m) /\ v_ver v = s_cv (u_sync u)) ->
+  (exists v m, u_vv u = Some (v, m) /\ v_ver v = s_cv (u_sync u) /\ v_src v = s_cvsrc (u_sync u) /\
+               hlv_local_lt v nc) ->
   chain (s_hist (u_sync u)) ->
   (exists r t, s_hist (u_sync u) = r :: t /\
                rev_crc r = match st' with Alive => crc body' | _ => delcrc end) ->
@@ -70,9 +71,9 @@ Lemma apply_upd_DocInv cl cur st' body' u nc :
   DocInv nc (apply_upd crc delcrc cl cur st' body' u nc) /\
   own (apply_upd crc delcrc cl cur st' body' u nc) = true.
 Proof.
-  intros NA Mac (v & m & Ev & Hv) Ch (r & t & Eh & Hc) Pos.
+  intros NA Mac (v & m & Ev & Hv & Hs & Hl) Ch (r & t & Eh & Hc) Pos.
   unfold apply_upd. rewrite Mac, Ev. split.
-  - constructor; cbn.
+  - constructor; cbn [d_cas d_st d_body d_sync d_vv d_mou].
     + lia.
     + intros X; congruence.
     + auto.
@@ -83,6 +84,7 @@ Proof.
       * destruct m; eexists; split; try reflexivity; cbn; auto.
       * exists r, t. split; auto.
       * intros _. unfold Import.body_crc, is_alive. cbn. destruct st'; cbn; congruence.
+    + intros v0 E. destruct m; inversion E; subst v0; exact Hl.
   - unfold ImportInv.own, sd_is_sg_write. cbn. rewrite N.eqb_refl. reflexivity.
 Qed.
 
@@ -102,6 +104,29 @@ Proof.
   intros D N. pose proof (not_absent_cas _ _ D N) as NA. unfold is_alive.
   destruct (d_st d) eqn:E; cbn; try congruence; [left; auto|right; repeat split; auto].
   apply (di_body _ _ _ _ D). congruence.
+Qed.
+
+(* ---------- the HLV written by an import ---------- *)
+
+Lemma import_hlv_lt c d vv' nc : DocInv c d -> c < nc -> import_hlv d = Some vv' -> hlv_local_lt vv' nc.
+Proof.
+  intros D L E. pose proof (di_cas _ _ _ _ D) as Cd. unfold import_hlv in E.
+  destruct (d_vv d) as [v|] eqn:Ev.
+  - pose proof (di_hlv _ _ _ _ D _ Ev) as Hl.
+    destruct ((v_cvcas v =? d_cas d) || mou_match d).
+    + inversion E; subst. eapply hlv_local_lt_mono; [|exact Hl]. lia.
+    + destruct (hlv_add v local_src (d_cas d)) as [v2|] eqn:Ea; [|discriminate].
+      inversion E; subst vv'. apply set_cvcas_local_lt.
+      eapply hlv_add_local_lt; [exact Hl| | |exact Ea]; lia.
+  - inversion E; subst vv'. split; [cbn; intros _; lia|split; reflexivity].
+Qed.
+
+Lemma import_hlv_some c d : DocInv c d -> exists vv', import_hlv d = Some vv'.
+Proof.
+  intros D. unfold import_hlv. destruct (d_vv d) as [v|] eqn:Ev; [|eauto].
+  destruct ((v_cvcas v =? d_cas d) || mou_match d); [eauto|].
+  destruct (hlv_add_ok v (d_cas d) (d_cas d) (di_hlv _ _ _ _ D _ Ev)) as [v' E]; [lia|].
+  rewrite E. cbn. eauto.
 Qed.
 
 (* ---------- the interposed action ---------- *)
@@ -186,13 +211,12 @@ Proof.
     [inversion E; subst; split; [exact HI | split; [apply mono_refl | intros; discriminate]]|].
   destruct (doc_is_sg_write crc delcrc d (raw_of d)) eqn:SG;
     [inversion E; subst; split; [exact HI | split; [apply mono_refl | intros; discriminate]]|].
+  destruct (import_hlv d) as [vv'|] eqn:EH;
+    [|inversion E; subst; split; [apply Inv_set_nseq; auto | split; [apply mono_set_nseq | intros; discriminate]]].
   inversion E; subst s1 r; clear E.
   split; [apply Inv_set_nseq; auto|]. split; [apply mono_set_nseq|].
   intros u p Eu Ep s2 d' I2 P2 SW. inversion Eu; subst u; clear Eu.
   assert (D2 : DocInv (clk s2) d) by (rewrite <- Ep; apply P2).
-  set (vv' := match d_vv d with
-              | Some v => if (v_cvcas v =? d_cas d) || mou_match d then v else mkVV (d_cas d) (d_cas d)
-              | None => mkVV (d_cas d) (d_cas d) end) in *.
   match type of SW with store_write _ _ _ _ ?uu _ = _ => set (u := uu) in * end.
   destruct (store_write_same_doc s2 p u d' I2 P2) as [Ecur Ed']; auto.
   - rewrite Ep; auto.
@@ -207,7 +231,8 @@ Proof.
     { assert (Hh : s_hist (u_sync u) = R (N.succ (cur_gen d)) (cur_gen d) (negb (is_alive d))
                                            (match raw_of d with Some b => b | None => 0 end) :: hist_of d) by reflexivity.
       subst d'. apply apply_upd_DocInv; auto; try lia.
-      - subst u. cbn. eauto.
+      - subst u. cbn. eexists _, _. split; [reflexivity|]. split; [reflexivity|]. split; [reflexivity|].
+        eapply import_hlv_lt; eauto. lia.
       - rewrite Hh, cur_gen_hist. apply chain_cons. eapply hist_chain; eauto.
       - rewrite Hh. eexists _, _. split; [reflexivity|]. unfold ImportInv.rev_crc. cbn.
         unfold raw_of. destruct (st_cases _ _ D2 Z) as [[A St]|[A [St B0]]]; rewrite A, St; reflexivity. }
@@ -309,6 +334,15 @@ Qed.
 Lemma mono_add_import s : mono s (add_import s).
 Proof. repeat split; cbn; auto; lia. Qed.
 
+Lemma Inv_add_cancel s : Inv s -> Inv (add_cancel s).
+Proof. intros [[D F C] W]. split; [constructor|]; auto. Qed.
+Lemma Inv_add_err s : Inv s -> Inv (add_err s).
+Proof. intros [[D F C] W]. split; [constructor|]; auto. Qed.
+Lemma mono_add_cancel s : mono s (add_cancel s).
+Proof. repeat split; cbn; auto; lia. Qed.
+Lemma mono_add_err s : mono s (add_err s).
+Proof. repeat split; cbn; auto; lia. Qed.
+
 Lemma import_run_ok feed isdel ex ex_raw s :
   Inv s -> Snap s ex -> ex_raw = raw_of ex -> isdel = negb (is_alive ex) ->
   forall s' r, import_run true crc delcrc fire feed isdel ex ex_raw s = (s', r) ->
@@ -324,8 +358,12 @@ Proof.
   - destruct R as (I1 & O1 & Sl). inversion E; subst s' r; clear E.
     split; [apply Inv_add_import; auto|]. split; [eapply mono_trans; [exact Mo|apply mono_add_import]|].
     intros _. exact O1.
-  - assert (X : s' = s1 /\ r <> IImported) by (destruct e; inversion E; subst; split; auto; discriminate).
-    destruct X as [-> NI]. split; [exact R|]. split; [exact Mo|]. congruence.
+  - assert (X : (s' = s1 \/ s' = add_cancel s1 \/ s' = add_err s1) /\ r <> IImported)
+      by (destruct e; inversion E; subst; split; auto; discriminate).
+    destruct X as [ [ -> | [ -> | -> ] ] NI ].
+    + split; [exact R|]. split; [exact Mo|]. congruence.
+    + split; [apply Inv_add_cancel; exact R|]. split; [eapply mono_trans; [exact Mo|apply mono_add_cancel]|]. congruence.
+    + split; [apply Inv_add_err; exact R|]. split; [eapply mono_trans; [exact Mo|apply mono_add_err]|]. congruence.
 Qed.
 
 (* ================= gateway write (Put) ================= *)
@@ -405,6 +443,10 @@ Proof.
   destruct parent as [pg|] eqn:EP.
   2:{ inversion E; subst. split; [exact I0|]. split; [exact M0|]. split; [reflexivity|]. intros; discriminate. }
   specialize (Hpar pg eq_refl). subst pg.
+  destruct (match d_vv d with Some v => hlv_add v local_src (d_cas d) | None => Some (mkVV local_src (d_cas d) 0 [] []) end)
+    as [vv'|] eqn:EH.
+  2:{ inversion E; subst. split; [apply Inv_set_nseq; exact I0|].
+      split; [eapply mono_trans; [exact M0|apply mono_set_nseq]|]. split; [reflexivity|]. intros; discriminate. }
   inversion E; subst s1 r m'; clear E.
   split; [apply Inv_set_nseq; exact I0|]. split; [eapply mono_trans; [exact M0|apply mono_set_nseq]|].
   split; [reflexivity|].
@@ -419,7 +461,15 @@ Proof.
   { subst d'. apply apply_upd_DocInv; try lia.
     - destruct b; cbn; congruence.
     - reflexivity.
-    - subst u. cbn. eauto.
+    - subst u. cbn. eexists _, _. split; [reflexivity|].
+      assert (Hl : hlv_local_lt vv' (N.succ (clk s2)) /\ v_ver vv' = d_cas d /\ v_src vv' = local_src).
+      { pose proof (di_cas _ _ _ _ Dd) as Cd. destruct (d_vv d) as [v|] eqn:Ev.
+        - split; [eapply (hlv_add_local_lt v (d_cas d) (d_cas d)); [eapply di_hlv; eauto| | |exact EH]; lia|].
+          unfold hlv_add in EH. destruct (match hlv_get v local_src with Some x => _ | None => false end); [discriminate|].
+          destruct (local_src =? v_src v); inversion EH; subst; auto.
+        - inversion EH; subst vv'. split; [|split; reflexivity].
+          split; [cbn; intros _; lia|split; reflexivity]. }
+      destruct Hl as (Hl & Hv & Hs). auto.
     - rewrite Hh, cur_gen_hist. apply chain_cons. eapply hist_chain; eauto.
     - rewrite Hh. eexists _, _. split; [reflexivity|]. unfold ImportInv.rev_crc. subst deleted. destruct b; reflexivity. }
   destruct DO as [Dd' Od'].
@@ -462,7 +512,8 @@ Qed.
 Lemma keep_DocInv c d st' b' nc sy' :
   DocInv c d -> c < nc -> st' <> Absent -> (st' <> Alive -> b' = 0) ->
   match d_sync d, sy' with
-  | Some sy, Some sy2 => s_cas sy2 = s_cas sy /\ s_crc sy2 = s_crc sy /\ s_cv sy2 = s_cv sy /\ s_hist sy2 = s_hist sy
+  | Some sy, Some sy2 => s_cas sy2 = s_cas sy /\ s_crc sy2 = s_crc sy /\ s_cv sy2 = s_cv sy /\ s_hist sy2 = s_hist sy /\
+                         s_cvsrc sy2 = s_cvsrc sy
   | None, None => True
   | _, _ => False
   end ->
@@ -477,9 +528,10 @@ Proof.
   - intros E. subst sy'. destruct (d_sync d) as [sy|] eqn:Es; [contradiction|].
     split; [apply (di_nosync _ _ _ _ D Es) | auto].
   - intros sy2 E. subst sy'. destruct (d_sync d) as [sy|] eqn:Es; [|contradiction].
-    destruct Hs as (H1 & H2 & H3 & H4).
-    destruct (di_sync _ _ _ _ D _ Es) as (A1 & (v & Ev & Hv) & A3 & (r & t & Eh & Hc) & A5).
-    rewrite H1, H2, H3, H4. split; [lia|]. split; [eauto|]. split; [auto|]. split; [eauto|]. intros X. lia.
+    destruct Hs as (H1 & H2 & H3 & H4 & H5).
+    destruct (di_sync _ _ _ _ D _ Es) as (A1 & (v & Ev & Hv & Hsr) & A3 & (r & t & Eh & Hc) & A5).
+    rewrite H1, H2, H3, H4, H5. split; [lia|]. split; [eauto|]. split; [auto|]. split; [eauto|]. intros X. lia.
+  - intros v Ev. eapply hlv_local_lt_mono; [|eapply di_hlv; eauto]. lia.
 Qed.
 
 Lemma keep_pend c d st' nc sy' mou' :
@@ -528,7 +580,7 @@ Proof.
   - fold d in Ed'. rewrite St in Ed'. clear SW.
     destruct I2 as [[Dc Fc Cc] Wc]. rewrite Ecur in Dc, Cc, Wc. fold d in Dc, Cc, Wc.
     assert (Ed2 : d' = mkDoc Alive (d_body d) (N.succ (clk s2))
-                         (Some (mkSync (s_cas sy) (s_crc sy) (s_cv sy) (s_hist sy) (N.succ (nseq s)) false))
+                         (Some (mkSync (s_cas sy) (s_crc sy) (s_cv sy) (s_hist sy) (N.succ (nseq s)) false (s_cvsrc sy)))
                          (d_vv d) (Some (mkMou (N.succ (clk s2)) (mou_pcas d)))) by (subst d'; reflexivity).
     assert (Dd' : DocInv (N.succ (clk s2)) d').
     { rewrite Ed2. eapply keep_DocInv; eauto; try lia; try congruence.
@@ -599,13 +651,14 @@ Proof.
   unfold Import.body_crc in OC. rewrite A in OC.
   destruct (di_sync _ _ _ _ D _ Es) as (A1 & (v & Ev & Hv) & A3 & (r & t & Eh & Hc) & A5).
   set (d' := mkDoc Alive (d_body d) (N.succ (clk s))
-                   (Some (mkSync (N.succ (clk s)) (crc (d_body d)) (s_cv sy) (s_hist sy) (s_seq sy) false))
+                   (Some (mkSync (N.succ (clk s)) (crc (d_body d)) (s_cv sy) (s_hist sy) (s_seq sy) false (s_cvsrc sy)))
                    (d_vv d) (Some (mkMou (N.succ (clk s)) (s_cas sy)))).
   assert (D' : DocInv (N.succ (clk s)) d').
-  { constructor; cbn; try lia; try congruence.
-    intros sy2 E2. inversion E2; subst sy2; clear E2. cbn.
-    split; [lia|]. split; [eauto|]. split; [auto|]. split; [exists r, t; split; auto; congruence|].
-    intros _. reflexivity. }
+  { constructor; cbn [d_cas d_st d_body d_sync d_vv d_mou d']; try lia; try congruence.
+    - intros sy2 E2. inversion E2; subst sy2; clear E2. cbn.
+      split; [lia|]. split; [eauto|]. split; [auto|]. split; [exists r, t; split; auto; congruence|].
+      intros _. reflexivity.
+    - intros v0 Ev0. eapply hlv_local_lt_mono; [|eapply di_hlv; eauto]. pose proof (di_cas _ _ _ _ D). lia. }
   assert (O' : own d' = true).
   { unfold ImportInv.own, sd_is_sg_write. cbn. rewrite N.eqb_refl. reflexivity. }
   split; [|split].
@@ -731,12 +784,41 @@ Proof.
   destruct (d_st (doc s)) eqn:St; try (inversion E; subst; split; auto using mono_refl; fail).
   inversion E; subst s' r; clear E.
   set (nc := N.succ (clk s)). set (seq := N.succ (nseq s)).
-  set (d' := mkDoc Alive b nc (Some (mkSync nc (crc b) nc [R 1 0 false b] seq true)) (Some (mkVV nc nc)) None).
+  set (d' := mkDoc Alive b nc (Some (mkSync nc (crc b) 0 [R 1 0 false b] seq true local_src))
+                   (Some (mkVV local_src 0 nc [] [])) None).
   assert (D' : DocInv nc d').
-  { constructor; cbn; try lia; try congruence.
-    intros sy2 E2. inversion E2; subst sy2; clear E2. cbn.
-    split; [lia|]. split; [eauto|]. split; [auto|]. split; [eexists _, _; split; reflexivity|].
-    intros _. reflexivity. }
+  { constructor; cbn [d_cas d_st d_body d_sync d_vv d_mou d']; try lia; try congruence.
+    - intros sy2 E2. inversion E2; subst sy2; clear E2. cbn.
+      split; [lia|]. split; [eauto|]. split; [auto|]. split; [eexists _, _; split; reflexivity|].
+      intros _. reflexivity.
+    - intros v0 Ev0. inversion Ev0; subst v0. split; [cbn; intros _; subst nc; lia|split; reflexivity]. }
+  assert (O' : own d' = true).
+  { unfold ImportInv.own, sd_is_sg_write. cbn. rewrite N.eqb_refl. reflexivity. }
+  split.
+  - apply Inv_set_wb; [|reflexivity].
+    apply (commit_Inv0 (set_nseq s seq) d'); auto.
+    + apply (Inv_set_nseq s seq HI).
+    + rewrite pend_own by auto. lia.
+  - repeat split; cbn; lia.
+Qed.
+
+Lemma foreign_write_ok s b h : Inv s -> forall s' r, foreign_write crc s b h = (s', r) -> Inv s' /\ mono s s'.
+Proof.
+  intros HI s' r E. unfold foreign_write in E.
+  destruct (d_st (doc s)) eqn:St; try (inversion E; subst; split; auto using mono_refl; fail).
+  destruct (foreign_ok h (N.succ (clk s))) eqn:FO; [|inversion E; subst; split; auto using mono_refl].
+  inversion E; subst s' r; clear E.
+  set (nc := N.succ (clk s)) in *. set (seq := N.succ (nseq s)).
+  set (d' := mkDoc Alive b nc (Some (mkSync nc (crc b) (v_ver h) [R 1 0 false b] seq false (v_src h)))
+                   (Some (set_cvcas nc h)) None).
+  unfold foreign_ok in FO. apply andb_true_iff in FO. destruct FO as [FO F3].
+  apply andb_true_iff in FO. destruct FO as [F1 F2]. apply negb_true_iff, N.eqb_neq in F1.
+  assert (D' : DocInv nc d').
+  { constructor; cbn [d_cas d_st d_body d_sync d_vv d_mou d']; try lia; try congruence.
+    - intros sy2 E2. inversion E2; subst sy2; clear E2. cbn.
+      split; [lia|]. split; [eauto|]. split; [auto|]. split; [eexists _, _; split; reflexivity|].
+      intros _. reflexivity.
+    - intros v0 Ev0. inversion Ev0; subst v0. split; [cbn; intros X; congruence|split; assumption]. }
   assert (O' : own d' = true).
   { unfold ImportInv.own, sd_is_sg_write. cbn. rewrite N.eqb_refl. reflexivity. }
   split.
@@ -755,6 +837,7 @@ Proof.
   - eapply ext_del_ok; eauto.
   - eapply ext_touch_ok; eauto.
   - eapply legacy_write_ok; eauto.
+  - eapply foreign_write_ok; eauto.
   - destruct (gw_put_ok (Some b) s HI _ _ E) as (A & B & _). auto.
   - destruct (gw_put_ok None s HI _ _ E) as (A & B & _). auto.
   - eapply gw_meta_ok; eauto.
